@@ -73,7 +73,7 @@ let seg (nt : names) (s : n) (keys : n list list) : string =
 
 (* a net change:  <c|d> <path>=<value field>:<d if default>  *)
 let fchange_line (sch : (n * sinfo) list) (nt : names) (c : fchange) : string =
-  let op = if c.fc_create then "c" else "d" in
+  let op = (match c.fc_op with FDel -> "d" | FCre -> "c" | FFlag -> "f" | FRepl -> "r") in
   let segs = List.map (fun (s, k) -> seg nt s k) c.fc_path in
   let s = (match List.rev c.fc_path with (s, _) :: _ -> s | [] -> N0) in
   Printf.sprintf "%s %s%s:%s" op (String.concat "/" segs) (seg_val sch s c.fc_val) (if c.fc_dflt then "d" else "")
@@ -134,10 +134,31 @@ let silent_info (d : change list) : string =
 
 let q_line sch (f : dnode list) (g : dnode list) (d : change list) : string =
   let nb = f = [] || normalb sch g in                 (* LYD_VALIDATE_PRESENT: an empty tree is not validated *)
-  let ab = not (changes_idb sch d) || forest_eqb (np_norm sch (apply_changes sch d f)) g in
+  (* paths identify nodes only without duplicate-instance lists and without duplicate instances in the input *)
+  let ab = not (changes_idb sch d) || not (uniq_idsb sch f) || forest_eqb (np_norm sch (apply_changes sch d f)) g in
   let asb = ab || forest_eqb (np_norm sch (apply_changes_all sch d f)) g in
-  Printf.sprintf "Q N=%s%s A=%s AS=%s F=%s C=%s S=%s" (b2s nb) (if nb then "" else ":" ^ normal_reasons sch g) (b2s ab) (b2s asb)
-    (b2s (np_flagsb sch f)) (b2s (canonb sch None f)) (silent_info d)
+  Printf.sprintf "Q N=%s%s A=%s AS=%s F=%s C=%s K=%s D=%s S=%s" (b2s nb) (if nb then "" else ":" ^ normal_reasons sch g) (b2s ab) (b2s asb)
+    (b2s (np_flagsb sch f)) (b2s (canonb sch None g)) (b2s (chc_okb sch && schema_okb sch && sids_uniqb sch && keys_plainb sch))
+    (b2s (not (flag_soundb sch f) || flag_soundb sch g)) (silent_info d)
+
+(* why does the hypothesis of the with-defaults theorem fail on f *)
+let wd_reasons (sch : (n * sinfo) list) (f : dnode list) : string =
+  let rs = ref [] in
+  let add r = if not (List.mem r !rs) then rs := r :: !rs in
+  let rec go (sibs : dnode list) (l : dnode list) =
+    List.iter (fun (DN (s, _, d, _, ch) as nd) ->
+      if is_termnode sch nd then begin
+        if ch <> [] then add "termch";
+        if is_default_val sch nd <> rfc_holds_default sch sibs nd then add "ll";
+        if d && not (is_default_val sch nd) then add "unsound"
+      end else begin
+        (match (sget sch s).si_kind with
+         | KCont false -> if d <> List.for_all (fun (DN (_, _, d', _, _)) -> d') ch then add "npflag"
+         | _ -> if d then add "otherd");
+        go ch ch
+      end) l in
+  go f f;
+  String.concat "," (List.sort compare !rs)
 
 let mode_of (opts : int) : wdmode =
   if opts land 0x10 <> 0 then WdTrim
@@ -150,7 +171,7 @@ let run (f : string list) : string =
   match f with
   | "dfltm" :: rest ->
       (try
-         let sch = ref [] and nt = ref [] and cur = ref [] and dead = ref false in
+         let sch = ref [] and nt = ref [] and cur = ref [] and dead = ref false and validated = ref false in
          let out = ref [] in
          let emit s = out := s :: !out in
          List.iter (fun cmd ->
@@ -158,7 +179,14 @@ let run (f : string list) : string =
            else if starts cmd "#n " then nt := parse_names (after cmd "#n ")
            else if starts cmd "#t " then begin
              cur := parse_dump_new !nt (after cmd "#t ");
+             validated := false;
              emit ("T " ^ print_dump_new !sch !nt !cur)
+           end
+           else if cmd = "#q" then begin
+             (* properties of the current tree as a validation RESULT (used on a tree libyang produced) *)
+             let nb = normalb !sch !cur in
+             emit (Printf.sprintf "Q N=%s%s C=%s D=%s" (b2s nb) (if nb then "" else ":" ^ normal_reasons !sch !cur)
+                     (b2s (canonb !sch None !cur)) (b2s (flag_soundb !sch !cur)))
            end
            else if !dead then ()
            else begin
@@ -169,6 +197,7 @@ let run (f : string list) : string =
                   | Ok (g, d) ->
                       emit (Printf.sprintf "V0 %s # %s" (print_dump_new !sch !nt g) (if ds = [] then "-" else changes_text !sch !nt d));
                       emit (q_line !sch !cur g d);
+                      validated := true;
                       cur := g
                   | Err e -> emit (if int_of_n e = 1 then "VE" else "VFUEL"); dead := true)
              | "implicit" :: "t0" :: _ :: o :: ds ->
@@ -181,7 +210,14 @@ let run (f : string list) : string =
                  let opts = int_of_string o in
                  let ke = opts land 4 <> 0 in
                  let p = wd_print_forest !sch (mode_of opts) ke !cur in
-                 emit (Printf.sprintf "P%d %s" opts (printed_text !sch !nt p))
+                 let chk =
+                   if ke || not !validated then ""
+                   else begin
+                     let w = wd_wf_forest !sch !cur in
+                     Printf.sprintf " W=%s%s R=%s" (b2s w) (if w then "" else ":" ^ wd_reasons !sch !cur)
+                       (b2s (forest_eqb p (rfc_view_forest !sch (mode_of opts) false !cur)))
+                   end in
+                 emit (Printf.sprintf "P%d %s%s" opts (printed_text !sch !nt p) chk)
              | _ -> ()
            end) rest;
          String.concat " | " (List.rev !out)
